@@ -154,7 +154,8 @@ fn ykh_bin() -> String {
     })
 }
 
-fn run_binary(c: &Case) -> String {
+/// result line, and the raw stdout when the exit status is 0
+fn run_binary(c: &Case) -> (String, Option<Vec<u8>>) {
     let out = Command::new("timeout")
         .args(["-s", "KILL", "300"])
         .arg(ykh_bin())
@@ -165,7 +166,7 @@ fn run_binary(c: &Case) -> String {
         .output();
     let out = match out {
         Ok(o) => o,
-        Err(e) => return format!("exit=- kind=other:spawn-failed:{} out=", esc_text(e.to_string().as_bytes())),
+        Err(e) => return (format!("exit=- kind=other:spawn-failed:{} out=", esc_text(e.to_string().as_bytes())), None),
     };
     let code = out.status.code().map(|c| c.to_string()).unwrap_or("signal".into());
     let stderr = String::from_utf8_lossy(&out.stderr).to_string();
@@ -194,7 +195,8 @@ fn run_binary(c: &Case) -> String {
     } else {
         "other:abnormal-exit".to_string()
     };
-    format!("exit={} kind={} out={}", code, kind, esc_text(&out.stdout))
+    let raw = if out.status.code() == Some(0) { Some(out.stdout.clone()) } else { None };
+    (format!("exit={} kind={} out={}", code, kind, esc_text(&out.stdout)), raw)
 }
 
 // ------------------------------------------------------------------------------------------------
@@ -602,9 +604,15 @@ fn load_link(tok: &str) -> Option<Link> {
 // one case
 // ------------------------------------------------------------------------------------------------
 fn run_case(c: &Case) -> (String, String) {
-    let imp = run_binary(c);
+    let (imp, raw) = run_binary(c);
     let tail = guarded(|| case_tail(c)).unwrap_or("LS=inv D=HARNESS-PANIC LIB=-".into());
-    (format!("{} {}", c.head(), tail), imp)
+    // ckh: the generator grid may legitimately differ between two processes (hash-seeded elimination order);
+    // the printed text is handed to the model's checker (Table.check_ckh_text) as a certificate
+    let raw = match (&raw, c.cmd.as_str()) {
+        (Some(r), "ckh") => format!(" RAW=:{}", esc_text(r)),
+        _ => String::new(),
+    };
+    (format!("{} {}{}", c.head(), tail, raw), imp)
 }
 
 fn case_tail(c: &Case) -> String {
